@@ -200,6 +200,15 @@ macro_rules! cat_cfg {
                         1 => Some(tab32.iter().copied().sum::<f32>()),
                         _ => norm64.map(|x| x as f32),
                     };
+                    // C05 only: a caller-supplied normalisation slightly ABOVE the left-to-right sum (the documentation
+                    // asks for the exact sum because a smaller value can overflow; a larger one cannot). Every
+                    // representation built from the same arguments must still be the same model.
+                    let (norm64, norm32) = if mode == 5 && !hostile && norm_kind == 1 && n % 4 == 3 {
+                        ctx.label("normalisation_above_the_sum");
+                        (norm64.map(|x| x * 1.000001), norm32.map(|x| x * 1.0001))
+                    } else {
+                        (norm64, norm32)
+                    };
                     if use_f32 {
                         note!(ctx, "f32 table {} normalization {:?}", debug_list(&tab32), norm32);
                     } else {
